@@ -4,6 +4,7 @@ import (
 	"context"
 	"io"
 	"os"
+	"runtime"
 	"unsafe"
 
 	"github.com/goccy/go-json/internal/encoder"
@@ -261,6 +262,8 @@ func encodeNoEscape(ctx *encoder.RuntimeContext, v interface{}) ([]byte, error) 
 	ctx.Init(p, codeSet.CodeLength)
 	ctx.KeepRefs = append(ctx.KeepRefs, unsafe.Pointer(codeSet)) // Init has reset KeepRefs: pin the program again
 	buf, err := encodeRunCode(ctx, b, codeSet)
+	// the interpreter holds the value as uintptr only: keep it reachable (without making it escape) until it is done
+	runtime.KeepAlive(v)
 	if err != nil {
 		return nil, err
 	}
